@@ -125,6 +125,7 @@ type C11Case struct {
 	Delays   []Delay      `json:"delays,omitempty"`
 	Reopen   []C11Reopen  `json:"reopen,omitempty"`
 	Listener *C11Listener `json:"listener,omitempty"`
+	Storm    *C11Storm    `json:"storm,omitempty"`
 }
 
 func genClosers(t *rapid.T) (int, int) {
@@ -135,6 +136,7 @@ func genC11(t *rapid.T) C11Case {
 	kind := rapid.SampledFrom([]string{
 		"close_mux", "close_mux", "close_mux", "close_mux", "close_mux", "close_mux",
 		"cut_write", "cut_write", "cut_write", "cut_write",
+		"storm", "storm", "storm",
 		"overflow", "overflow", "overflow",
 		"cut_read", "cut_read",
 		"read_error", "read_error", "read_error", "read_error",
@@ -145,6 +147,9 @@ func genC11(t *rapid.T) C11Case {
 	}).Draw(t, "kind")
 	if kind == "listener" {
 		return genC11Listener(t)
+	}
+	if kind == "storm" {
+		return genC11Storm(t)
 	}
 	c := C11Case{Kind: "mux"}
 	if kind == "overflow" {
